@@ -348,7 +348,7 @@ def run(chk):
                 "(0-2 items, one of them wholly missing), add, remove, in-place edit of an item's arrays, `a.tracks = b.tracks`, "
                 "encode; after EVERY operation: identity of every instance's items and the sha of its encoding; oracle: only the "
                 "target instance changes (an edited object the caller himself placed in two blocks excepted), a block built "
-                "without items is empty; plus pairs of events / tracks built from ONE caller-side source of numbers (list, tuple, arrays of other dtypes, array.array, memoryview, __array__ provider); non-trivial = >= 2 instances exist at some point")
+                "without items is empty; control experiments (the same history on A with and without a block B that receives A's own item objects under other channels, with direct edits of A's public item list); plus pairs of events / tracks built from ONE caller-side source of numbers (list, tuple, arrays of other dtypes, array.array, memoryview, __array__ provider); non-trivial = >= 2 instances exist at some point")
     scripts = []
     creates = [("new",), ("decode", 0), ("decode", 1), ("decode", 2), ("new_given",)]
     edits = [("add", 1), ("add", 2), ("remove", 1, 0), ("remove", 2, 1), ("edit", 1, 0), ("edit", 1, 1), ("edit", 2, 0),
@@ -378,6 +378,7 @@ def run(chk):
             chk.violation("C20 %s: correspondence broken: %s" % (kind, d), dict(what, correspondence="coq/Model/Heap.v h_step"), False)
     container_fetches(chk, rng)
     shared_sources(chk, rng)
+    shared_item_control(chk, rng)
 
 
 def container_fetches(chk, rng):
@@ -512,6 +513,90 @@ def shared_sources(chk, rng):
                 chk.violation("C20 %s: two objects built by separate constructor calls from the same %s: %s" % (cname, sname, found), what, True)
                 if chk.n_found() >= 3:
                     return
+
+
+def shared_item_control(chk, rng):
+    """independence as a control experiment: a history on block A gives the same observations (what A iterates over,
+    what it encodes — or the same exception) whether or not a second, separately created block B is filled in between,
+    also when B receives the very item objects A holds (with other channels) and when A's public item list is edited
+    directly"""
+    import io
+    from basictdf.tdfForcePlatformsData import ForcePlatformData, ForcePlatformsDataBlock
+    from basictdf.tdfEvents import Event, EventsDataType, TemporalEventsData
+    from basictdf.tdfOpticalSystem import OpticalSetupBlock
+
+    def observe(kind, a):
+        out = []
+        try:
+            if kind == "PD":
+                out.append([(int(c), id(p)) for c, p in a])
+            else:
+                out.append([id(x) for x in a])
+        except Exception as e:
+            out.append("iteration raised " + type(e).__name__)
+        try:
+            f = io.BytesIO()
+            a._write(f)
+            out.append(hashlib.sha1(f.getvalue()).hexdigest())
+        except Exception as e:
+            out.append("encoding raised " + type(e).__name__)
+        try:
+            out.append(int(a.nBytes))
+        except Exception as e:
+            out.append("nBytes raised " + type(e).__name__)
+        return out
+
+    for j in range(40 if chk.tier == "quick" else 400):
+        kind = ("PD", "EV", "OS")[j % 3]
+        ad = Adapter(kind, rng)
+        items = [ad.item() for _ in range(3)]
+        script = []
+        # steps on A: ("a_add", item index, channel) | ("a_del", position) ; steps on B: ("b_add", item index, channel)
+        chans = rng.sample([0, 1, 2, 5, 7, 9], 3)
+        script.append(("a_add", 0, chans[0]))
+        script.append(("a_add", 1, chans[1]))
+        pool = [("b_add", 0, None), ("b_add", 1, rng.choice([None, 3])), ("a_del", rng.randrange(2)), ("a_add", 2, None), ("b_add", 2, 8),
+                ("a_del", 0)]
+        script += rng.sample(pool, rng.randrange(2, 6))
+        if not any(s[0].startswith("b_") for s in script):
+            script.insert(2, ("b_add", 0, None))
+
+        def run(with_b):
+            a, b = ad.new(), ad.new()
+            obs = []
+            for st in script:
+                if st[0].startswith("b_") and not with_b:
+                    continue
+                tgt = a if st[0].startswith("a_") else b
+                try:
+                    if st[0].endswith("add"):
+                        it = items[st[1]]
+                        if kind == "PD":
+                            tgt.add_platform(it, channel=st[2])
+                        elif kind == "EV":
+                            tgt.events.append(it)
+                        else:
+                            tgt.channels.append(it)
+                    else:
+                        lst = tgt.platforms if kind == "PD" else tgt.events if kind == "EV" else tgt.channels
+                        if st[1] < len(lst):
+                            del lst[st[1]]
+                except Exception as e:
+                    obs.append("%s raised %s" % (st[0], type(e).__name__))
+                if st[0].startswith("a_"):
+                    obs.append(observe(kind, a))
+            obs.append(observe(kind, a))
+            return obs
+        alone, together = run(False), run(True)
+        # item identities differ between nothing: the same item objects are used in both runs; compare as is
+        chk.note_case(("shared item control", kind, tuple(script)), True)
+        chk.count("control experiment: " + kind)
+        if alone != together:
+            k = next(i for i, (x, y) in enumerate(zip(alone, together)) if x != y)
+            chk.violation("C20 %s: what block A iterates over / encodes depends on whether a separately created block B was given items in "
+                          "between (observation %d: %r alone, %r with B) [steps %r]" % (kind, k, alone[k], together[k], script),
+                          {"kind": kind, "steps": [list(x) for x in script]}, True)
+            return
 
 
 def replay(chk, path):
